@@ -33,6 +33,7 @@ type FuncContract struct {
 	HasMod    bool
 	Modifies  []SExpr
 	LoopInv   map[int][]*Clause
+	InlineLoopInv []*Clause // invariants for loops of callees expanded in place: loop callee[#k].n invariant
 	LoopMod   map[int][]SExpr
 	CallAsserts []*Clause
 	Inline    bool // expand body at call sites instead of using the contract
@@ -88,6 +89,7 @@ type Contracts struct {
 	Files    []string
 	DynBind  map[string]string // name of a func-valued field/variable -> the only function it holds
 	Tracks   map[string][]string // ghost var -> struct names / map types whose writes invalidate it
+	Owns     map[string][]string // struct -> fields whose (map) contents are reachable only through that struct
 }
 
 var labelRe = regexp.MustCompile(`^([A-Za-z_][A-Za-z0-9_\-]*):\s+(.*)$`)
@@ -104,7 +106,7 @@ func splitLabel(s string) (string, string) {
 }
 
 var clauseKeywords = map[string]bool{
-	"tracks": true, "dynbind": true, "ghost-effect": true, "func": true, "property": true, "requires": true, "ensures": true, "modifies": true,
+	"owns": true, "tracks": true, "dynbind": true, "ghost-effect": true, "func": true, "property": true, "requires": true, "ensures": true, "modifies": true,
 	"loop": true, "at": true, "inline": true, "safe": true, "trusted": true, "noframe": true,
 	"inloop": true, "holds": true, "pure": true, "ghost": true, "spec": true, "axiom": true,
 	"iface": true, "monitor": true, "confined": true, "lemma": true, "dynpure": true, "note": true,
@@ -114,7 +116,7 @@ var clauseKeywords = map[string]bool{
 // loadContracts reads every *_verif.go file under dir (recursively, skipping hidden dirs)
 // and parses the //@ lines.
 func loadContracts(dir string, pkgPathOf func(dir string) string) (*Contracts, error) {
-	cs := &Contracts{Funcs: map[string]*FuncContract{}, Ifaces: map[string]*FuncContract{}, SpecFns: map[string]*SpecFn{}, Ghosts: map[string]*GhostVar{}, Confined: map[string][]string{}, DynBind: map[string]string{}, Tracks: map[string][]string{}}
+	cs := &Contracts{Funcs: map[string]*FuncContract{}, Ifaces: map[string]*FuncContract{}, SpecFns: map[string]*SpecFn{}, Ghosts: map[string]*GhostVar{}, Confined: map[string][]string{}, DynBind: map[string]string{}, Tracks: map[string][]string{}, Owns: map[string][]string{}}
 	var files []string
 	filepath.Walk(dir, func(p string, info os.FileInfo, err error) error {
 		if err != nil {
@@ -279,8 +281,22 @@ func (cs *Contracts) parseFile(file, pkg string) error {
 				return fmt.Errorf("%s:%d: bad loop clause", file, rl.line)
 			}
 			n, err := strconv.Atoi(f[0])
+			inlCallee, inlK := "", 0
 			if err != nil {
-				return fmt.Errorf("%s:%d: bad loop ordinal", file, rl.line)
+				// loop callee[#k].n invariant ... : a loop inside a callee that is expanded in place
+				dot := strings.LastIndex(f[0], ".")
+				if dot < 0 {
+					return fmt.Errorf("%s:%d: bad loop ordinal", file, rl.line)
+				}
+				n, err = strconv.Atoi(f[0][dot+1:])
+				if err != nil {
+					return fmt.Errorf("%s:%d: bad loop ordinal", file, rl.line)
+				}
+				inlCallee = f[0][:dot]
+				if h := strings.LastIndex(inlCallee, "#"); h >= 0 {
+					inlK, _ = strconv.Atoi(inlCallee[h+1:])
+					inlCallee = inlCallee[:h]
+				}
 			}
 			tail := strings.TrimSpace(strings.TrimPrefix(strings.TrimSpace(strings.TrimPrefix(rest, f[0])), f[1]))
 			switch f[1] {
@@ -290,7 +306,12 @@ func (cs *Contracts) parseFile(file, pkg string) error {
 					return err
 				}
 				c.Loop = n
-				cur.LoopInv[n] = append(cur.LoopInv[n], c)
+				if inlCallee != "" {
+					c.Callee, c.CallK = inlCallee, inlK
+					cur.InlineLoopInv = append(cur.InlineLoopInv, c)
+				} else {
+					cur.LoopInv[n] = append(cur.LoopInv[n], c)
+				}
 			case "modifies":
 				l, err := parseList(tail, rl.line)
 				if err != nil {
@@ -341,6 +362,15 @@ func (cs *Contracts) parseFile(file, pkg string) error {
 			cur.Pure = true
 		case "dynpure":
 			cur.DynPure = append(cur.DynPure, strings.Fields(rest)...)
+		case "owns":
+			idx := strings.Index(rest, ":")
+			if idx < 0 {
+				return fmt.Errorf("%s:%d: expected 'owns <Struct>: f1, f2'", file, rl.line)
+			}
+			st := strings.TrimSpace(rest[:idx])
+			for _, x := range splitTop(rest[idx+1:], ',') {
+				cs.Owns[st] = append(cs.Owns[st], strings.TrimSpace(x))
+			}
 		case "tracks":
 			// tracks <ghost>: Struct1, Struct2, map[K]V
 			idx := strings.Index(rest, ":")
